@@ -289,6 +289,8 @@ def canon(v):
         return "complex:nan"
     if isinstance(v, (list, tuple)):
         return "%s:[%s]" % (type(v).__name__, ",".join(canon(x) for x in v))
+    if type(v) is int and v.bit_length() > 4000:
+        return "int:huge:%d bits:%d" % (v.bit_length(), v % 1000003)      # (repr of such an int is refused by python 3.12)
     return "%s:%r" % (type(v).__name__, v)
 
 
@@ -907,7 +909,9 @@ def pyclass(node):
         c = node.get("ctor", "Stream")
         return c if c in SUBCLASS_CTORS else "Stream"
     if k == "append" or (k == "meth" and (node["l"] == "abs" or node["l"].startswith("map:"))):
-        return "ControlStream" if pyclass(node["s"]) == "ControlStream" else "Stream"
+        # map / append / abs return `self`: an instance of a Stream subclass stays one (python then tries ITS reflected
+        # method first, i.e. evaluates it as the first operand — visible as soon as element operations raise)
+        return pyclass(node["s"]) if pyclass(node["s"]) in SUBCLASS_CTORS else "Stream"
     if k in ("stream2", "un", "bin", "meth"):
         return "Stream"
     return None
